@@ -450,6 +450,9 @@ func (f *verifFake) request(cmd string, args []interface{}) (interface{}, error)
 		f.curDb = n
 		return "OK", nil
 	case "multi":
+		if f.inTxn {
+			return common.RedisError("ERR MULTI calls can not be nested"), nil
+		}
 		f.txnN++
 		r.txn = f.txnN
 		f.inTxn = true
@@ -457,6 +460,9 @@ func (f *verifFake) request(cmd string, args []interface{}) (interface{}, error)
 		f.log = append(f.log, r)
 		return "OK", nil
 	case "exec":
+		if !f.inTxn {
+			return common.RedisError("ERR EXEC without MULTI"), nil
+		}
 		r.txn = f.txnN
 		f.log = append(f.log, r)
 		f.inTxn = false
